@@ -22,9 +22,9 @@ from ..explore import Stats, explore_parallel
 from ..lifecycle import LifeHarness, LifeWorld, Oracle
 from ..vloop import HarnessError
 
-ATOMS_PLAIN = ("H", "C", "BV", "BP", "DR", "DRESP", "ST", "BAD", "PRE", "ENC")
-ATOMS_NOISE = ("NH", "NHE", "NHELLO", "H", "C", "DR", "BAD", "PRE", "TAMPER")
-PAIRS = (("ENC", "ST"), ("C", "H"), ("H", "BP"))
+ATOMS_PLAIN = ("H", "C", "BV", "BP", "DR", "DRESP", "ST", "DI", "BAD", "PRE", "ENC")
+ATOMS_NOISE = ("NH", "NHE", "NHELLO", "H", "C", "DR", "DI", "BAD", "PRE", "TAMPER")
+PAIRS = (("ENC", "ST"), ("C", "H"), ("H", "BP"), ("DI", "DI"), ("DI", "DR"), ("DRESP", "DRESP"), ("H", "H"))
 
 RESOLVE = 30.0
 TCP = 60.0
